@@ -206,7 +206,10 @@ def run(project, chk):
     if not chk.findings:
         chk.floor("read-only opens reachable from main", len(reads), 1)
         chk.floor("file writes reachable from main", n_w, 2)
-    chk.check(n_w == 2, "Q1", main.short, "open(..., 'w') sites", project.loc(m, main.node), "exactly two files are written per invocation pattern: <name>_cm.css per input and the report", how=f"{n_w} write sites: {[project.funcs[fq].short for fq, _ in writes]}",
+    if n_w < 2 and not chk.findings:
+        raise AnalysisError(f"{main.short}: only {n_w} of the command's two file writes (output stylesheet, report) is reachable through the resolved call graph "
+                            "(a writer handed around as a value?); the file effects are not decided")
+    chk.check(n_w <= 2, "Q1", main.short, "open(..., 'w') sites", project.loc(m, main.node), "exactly two files are written per invocation pattern: <name>_cm.css per input and the report", how=f"{n_w} write sites: {[project.funcs[fq].short for fq, _ in writes]}",
               message=f"{n_w} file-write sites are reachable from the command ({[norm_text(s.node)[:50] for _, s in writes]}): something else is created")
 
     # ---------------------------------------------------------------- Q2
